@@ -266,7 +266,7 @@ def run(ctx, chk):
     else:
         chk.fail('C19.6', 'diverges', 'create_cart_state neither builds a controller nor diverges for some type bytes', 'src/cart.rs', None)
     cc = sorted(set(c[0] for c in prog.callers('cart::Header::create_cart_state')))
-    if cc == ['mem::MemoryAreas::with_rom_file']:
+    if cc and set(cc) <= families(prog, ['mem::MemoryAreas::with_rom_file']):
         chk.ok('C19.6', 'called-at-load', sample={'callers': cc})
     else:
         chk.fail('C19.6', 'called-at-load', 'create_cart_state is called from %s' % cc, 'src/mem.rs', None)
